@@ -60,6 +60,30 @@ def runloop_held(F: Facts, ev, at_seq):
     return False
 
 
+def runloop_took_legitimately(F: Facts, ev, aw):
+    """F1 mechanism, precisely: a run loop dequeued `ev` and had not begun to process it when the await gave up,
+    AND it got the chance to do so in a way the polling loop really offers: either before the await began (the
+    handler yielded between dispatch and await), or while the awaiting handler was busy processing some other
+    event inline.  A run loop that grabs the child right after the await began, with nothing processed inline in
+    between, means the polling loop yielded before looking at the queues - that is not F1."""
+    at = aw.e if aw.e is not None else F.last_seq
+    for (b, e), lst in F.deq.items():
+        if e != ev:
+            continue
+        for seq, mode in lst:
+            if mode != 'runloop' or seq > at:
+                continue
+            begun = [p[0] for p in F.pe.get((b, e), ()) if p[0] > seq]
+            if begun and min(begun) < at:
+                continue  # processed in time after all
+            if seq < aw.b:
+                return True
+            inline = 'inline:' + aw.actor
+            if any(p[2] == inline and aw.b < p[0] < seq for lst2 in F.pe.values() for p in lst2):
+                return True
+    return False
+
+
 def held_by_parallel_sibling(F: Facts, ev, awaiter, at_seq):
     """F15 mechanism: on a parallel_handlers bus another awaiting handler's polling loop took ev
     (or one of its descendants) and was still processing it when `awaiter` gave up."""
@@ -137,7 +161,8 @@ def aborted_unrelated(F: Facts, ev):
                     root = None
                     for a in _chain(F, act):
                         aa = F.acts.get(a)
-                        if aa is not None and aa.how == 'cancelled':
+                        # (cancelled in this very cascade: same virtual instant as the aborted processing)
+                        if aa is not None and aa.how == 'cancelled' and aa.t_exit is not None and p[5] is not None and abs(aa.t_exit - p[5]) < 1e-9:
                             root = aa
                     # the outermost cancelled activation in the chain is the one whose timeout fired
                     if root is not None and ev not in F.desc(root.ev) and ev != root.ev:
@@ -342,12 +367,14 @@ def diagnose(F: Facts, v) -> str:
                     break
             if any(multi_bus_early_signal(F, x) for x in cand):
                 causes.add('F4')
-            if prop == 'C04' and (runloop_held(F, t, at) or any(runloop_held(F, d, at) for d in F.desc(t))):
+            if prop == 'C04' and aw is not None and any(runloop_took_legitimately(F, x, aw) for x in [t] + sorted(F.desc(t))):
                 causes.add('F1')
             if prop == 'C04' and held_by_parallel_sibling(F, t, actor, at):
                 causes.add('F15')
             if t not in F.sig:
                 causes |= why_incomplete(F, t)
+            elif any(aborted_unrelated(F, x) for x in [t] + sorted(F.desc(t))):
+                causes.add('F5b')  # its processing had been aborted by an unrelated handler's timeout (completed later)
         if not causes:
             return 'unexplained'
         return '+'.join(sorted(causes))
@@ -368,6 +395,14 @@ def diagnose(F: Facts, v) -> str:
     if prop == 'C05' and cl == 'unrelated_in_window':
         actor, ev, other = key
         act = v['detail']['act']
+        if v['detail'].get('after_await_returned'):
+            # the await had already returned with the child incomplete: whatever explains that (C04) explains this
+            aw = next((a for a in F.awaits if a.actor == actor and a.ev == ev and a.e is not None), None)
+            if aw is not None and aw.outcome.startswith('exc:'):
+                v4 = {'prop': 'C04', 'clause': 'C04.raised', 'key': (actor, ev), 'detail': {'outcome': aw.outcome}}
+            else:
+                v4 = {'prop': 'C04', 'clause': 'C04.child_incomplete_at_return', 'key': (actor, ev), 'detail': {}}
+            return diagnose(F, v4)
         ch = _chain(F, act)
         if actor in ch[1:]:
             # F0 is the documented drain policy: one event per bus per pass over all buses.  A polling loop that
